@@ -183,7 +183,7 @@ func init() {
 	register(&Check{
 		ID:    "C05",
 		Level: "exploration",
-		Rule: "seeded single-RPC scenarios with drawn request-header, response-header and trailer sets (mixed-case token names, repeated keys, multi-values, base64 -bin values, names close to control headers), " +
+		Rule: "seeded single-RPC scenarios with drawn request-header, response-header and trailer sets (mixed-case token names, repeated keys, multi-values, base64 -bin values, names close to control headers; in a quarter of the runs the handler stores repeated response headers into the header map directly under two spellings of the name), " +
 			"both trailer declaration styles (Trailer header / http.TrailerPrefix), success and error outcomes; oracle = relocation model: metadata minus the protocol's control set must arrive unchanged, " +
 			"trailers in the position the client's protocol defines; distinct = (form>target/path/shape/outcome/trailer style, schedule hash); non-trivial = backend reached and response produced",
 		Gen: func(c *Chooser, tier string) *Plan {
@@ -195,6 +195,7 @@ func init() {
 			rc.Client.Headers = genMetaSet(c, c.Intn(5))
 			rc.Backend.Resp.Headers = genMetaSet(c, c.Intn(5))
 			rc.Backend.Resp.Trailers = nil
+			rc.Backend.Resp.RawHeaderKeys = c.Prob(0.25)
 			hk := metaMultimap(rc.Backend.Resp.Headers)
 			for _, kv := range genMetaSet(c, c.Intn(5)) {
 				if _, dup := hk[http.CanonicalHeaderKey(kv[0])]; !dup { // one name is either a header or a trailer
